@@ -570,6 +570,8 @@ func fdOutside(fs, us *fdSide, cands map[string]*ast.FuncDecl) *fdOutsideInfo {
 		switch w, written := writes[o]; {
 		case out.sinks[o]:
 			out.vars = append(out.vars, fdVarVerdict{n, true, true, o.Pos(), n + " is write-only for the decoder: upstream has no such variable, its type gives access to no other storage, and every reference outside the fork-only functions that lie outside the decoder stands in a statement whose only effect is to store into it (atomic Add / Store, ++, op=, = of an expression without calls, indexing or division); nothing the decoder computes can depend on it"})
+		case fs.memo[o]:
+			out.vars = append(out.vars, fdVarVerdict{n, true, false, o.Pos(), n + " is a table that remembers what a pure function of its key computed: every entry is a function of its key alone and nothing is written through what the table holds (memo:" + n + "), so a lookup yields what computing afresh yields and no call can tell which calls came before"})
 		case written:
 			out.vars = append(out.vars, fdVarVerdict{n, false, false, w.fd.Pos(), fmt.Sprintf("the package-level variable %s is %s in %s and is not write-only (the decoder can read it, or the write is not a plain store of a side-effect-free expression): one call can change what later calls do — in strict mode too —, which neither the comparison with encoding/asn1 nor the lax tables see", n, w.kind, fdFuncKey(w.fd))})
 		default:
